@@ -149,6 +149,11 @@ class LetSubstitution:
         if len(node) <= 2:
             return []
         for var in node[1]:
+            if any(n == var[0] for n in nodes.dfs(var[1])):
+                # The variable occurs in its own (shadowing) definition, e.g.,
+                # (let ((x (+ x 1))) ...) or (let ((x x)) ...). Substituting
+                # does not eliminate it, but can be repeated forever.
+                continue
             if any(n == var[0] for n in nodes.dfs(node[2])):
                 subs = nodes.substitute(node[2], {var[0]: var[1]})
                 yield Simplification({node.id: Node(node[0], node[1], subs)},
